@@ -140,7 +140,7 @@ func getField(b []byte, f field) uint64 {
 
 func init() {
 	commands["C09"] = func(c *ctx) {
-		c.res.Rule = "byte strings: (a) every length/count/offset field of every seed (repository images and profile, generated PNG/JPEG/WebP with ICC, generated v2 and mluc profiles) set to 40 boundary values (0,1,8,9,12,13,...,2^31-1,2^31,2^32-16..2^32-1, original+/-1), ICC fields both standalone and embedded in each container; (b) seeded structure-aware mutations (bit flips, field swaps, splices); (c) truncations; each through the matching loader, autometa, Data.ICCProfile and Profile.Description, measuring escaped panics, wall time against 50 ms + 2 us/byte and runtime.MemStats.TotalAlloc against 2048 x input bytes + 1 MiB; outcome compared with the model; non-trivial = distinct input bytes"
+		c.res.Rule = "byte strings: (a) every length/count/offset field of every seed (repository images and profile, generated PNG/JPEG/WebP with ICC, generated v2 and mluc profiles) set to 40 boundary values (0,1,8,9,12,13,...,2^31-1,2^31,2^32-16..2^32-1, original+/-1), ICC fields both standalone and embedded in each container; (b) seeded structure-aware mutations (bit flips, field swaps, splices); (c) truncations; (d) pairs of neighbouring fields x {0,1,12,2^31-1,2^32-1}^2; (e) each format's first bytes followed by 70 KB / 3 MiB / 24 MiB runs of 0xFF or 0x00; each through the matching loader, autometa, Data.ICCProfile and Profile.Description, measuring escaped panics, wall time against 50 ms + 2 us/byte and runtime.MemStats.TotalAlloc against 2048 x input bytes + 1 MiB; outcome compared with the model; non-trivial = distinct input bytes"
 		debug.SetGCPercent(400)
 		rng := c.rng
 		type seed struct {
@@ -185,11 +185,19 @@ func init() {
 
 		current := c.out + "/current-input.hex"
 		run := func(kind, what string, s seed, data []byte) {
-			if len(data) > 1<<20 {
+			if len(data) > 1<<20 && kind != "run-of-bytes" {
 				return
 			}
-			os.WriteFile(current, []byte(what+"\n"+s.name+"\n"+hx(data)), 0o644)
+			if len(data) > 1<<20 {
+				os.WriteFile(current, []byte(what+"\n"+s.name+"\n"+hx(data[:64])+"... ("+fmt.Sprint(len(data))+" bytes: "+what+")"), 0o644)
+			} else {
+				os.WriteFile(current, []byte(what+"\n"+s.name+"\n"+hx(data)), 0o644)
+			}
 			in := map[string]interface{}{"seed": s.name, "mutation": what, "bytes": len(data), "data": shortHex(data)}
+			// a call that has not returned long after its budget is a hang: stop the process, the caller
+			// attributes the death to current-input.hex
+			wd := time.AfterFunc(60*time.Second+time.Duration(len(data))*20*time.Microsecond, func() { os.Exit(124) })
+			defer wd.Stop()
 			c.res.count(kind+":"+s.fmt, string(data), true)
 			budgetT := 50*time.Millisecond + time.Duration(len(data))*2*time.Microsecond
 			budgetA := uint64(2048*len(data) + 1<<20)
@@ -356,6 +364,58 @@ func init() {
 					cut = i * len(s.data) / 40
 				}
 				run("truncation", fmt.Sprintf("truncated@%d", cut), s, s.data[:cut])
+			}
+		}
+		// (d) pairs of neighbouring fields driven together (count x size, offset x size, length x width, seq x total)
+		pairVals := []uint64{0, 1, 12, 0x7fffffff, 0xffffffff}
+		for _, s := range seeds {
+			if len(s.data) > 100000 {
+				continue
+			}
+			var fs []field
+			switch s.fmt {
+			case "png":
+				fs = pngFields(s.data)
+			case "jpeg":
+				fs = jpegFields(s.data)
+			case "webp":
+				fs = webpFields(s.data)
+			case "icc":
+				fs = iccFields(s.data, 0)
+			}
+			if s.fmt != "icc" {
+				if i := bytes.Index(s.data, []byte("acsp")); i >= 36 && !strings.HasPrefix(s.name, "repo:") {
+					fs = append(fs, iccFields(s.data[i-36:], i-36)...)
+				}
+			}
+			for i := 0; i+1 < len(fs); i++ {
+				if !c.thorough && len(fs) > 40 && rng.Intn(len(fs)) >= 40 {
+					continue
+				}
+				for _, v1 := range pairVals {
+					for _, v2 := range pairVals {
+						d := setField(setField(s.data, fs[i], v1), fs[i+1], v2)
+						run("field-pair", fmt.Sprintf("%s@%d=%#x,%s@%d=%#x", fs[i].what, fs[i].off, v1&(1<<(8*uint(fs[i].width))-1), fs[i+1].what, fs[i+1].off, v2&(1<<(8*uint(fs[i+1].width))-1)), s, d)
+					}
+				}
+			}
+		}
+		// (e) a format's first bytes followed by a very long run of one byte value (fill bytes, zero padding):
+		// nesting or recursion that grows with the input shows up only here
+		runLens := []int{70000, 3 << 20}
+		if c.thorough {
+			runLens = append(runLens, 40<<20)
+		} else {
+			runLens = append(runLens, 24<<20)
+		}
+		heads := []seed{{"head:jpeg-soi", "jpeg", []byte{0xff, 0xd8}}, {"head:png-sig", "png", append([]byte{}, pngSigBytes...)},
+			{"head:riff-webp-vp8x", "webp", []byte("RIFF\xff\xff\xff\x7fWEBPVP8X\x0a\x00\x00\x00\x20\x00\x00\x00\x01\x00\x00\x01\x00\x00")}}
+		for _, h := range heads {
+			for _, n := range runLens {
+				for _, bv := range []byte{0xff, 0x00} {
+					d := append(append([]byte{}, h.data...), bytes.Repeat([]byte{bv}, n)...)
+					run("run-of-bytes", fmt.Sprintf("%d x %#02x after the %s start", n, bv, h.fmt), h, d)
+				}
 			}
 		}
 		os.Remove(current)
